@@ -116,5 +116,9 @@ Definition local_edit (i j : nat) (vals : list N) (t : ticket) (l : list tch) : 
   | _, _ => None
   end.
 
+(* RGATreeSplit.Purge of a run: its characters leave the list *)
+Definition purge_run (tk : ticket) (off len : N) (l : list tch) : list tch :=
+  filter (fun c => negb (teqb (c_tk c) tk && N.leb off (c_off c) && N.ltb (c_off c) (off + len))) l.
+
 Definition visible (l : list tch) : list N :=
   flat_map (fun c => match c_rm c with None => [c_val c] | Some _ => [] end) l.
